@@ -356,8 +356,62 @@ def _work(part, nparts, payload):
         for kind, text in bad[:3]:
             st.fail('big-batch:' + kind, text + ' [%d events queued before the pass; priorities %r ... %r]' % (len(program[3]), [p for _t, p in program[3][:6]], [p for _t, p in program[3][-3:]]),
                     {'big': True, 'n': len(program[3]), 'pattern': program[5]})
+    for i, case in enumerate(itertools.islice(adopt_cases(), part, None, nparts)):
+        got, want = run_adopt(case)
+        st.executions += 1
+        st.counters['adoption_programs'] += 1
+        st.outcome(('adopt', case, tuple(got)))
+        st.interesting(('adopt', case))
+        if got != want:
+            st.fail('adopt:order', 'events fired on a component (used %d times as its own root) before it was registered with a root (used %d times, %d events '
+                    'queued), then on that root: dispatched in order %r, priority then fire order gives %r [priorities %r]'
+                    % (case[0], case[1], case[2], got, want, case[3]), {'adopt': [case[0], case[1], case[2], list(case[3])]})
     st.states = len(st.outcomes)
     return st
+
+
+# ---- adoption: events fired on a component that is registered with the dispatching root afterwards --------------------------
+
+def adopt_cases():
+    for own_use in (0, 3, 7):
+        for root_use in (0, 2, 5):
+            for pre in (0, 2):                     # events queued on the root before the registration
+                for prios in itertools.product((0, 1), repeat=4):
+                    yield own_use, root_use, pre, prios
+
+
+def run_adopt(case):
+    """-> (dispatch order, expected order) of the tagged events; events 0,1 are fired on the detached component, then it is
+    registered, then 2,3 are fired on the root; `pre` events (tags 10, 11) are queued on the root before all that"""
+    from circuits.core.components import BaseComponent
+    own_use, root_use, pre, prios = case
+    log = []
+    root = BaseComponent()
+
+    def on_p(self, event, tag):
+        log.append(tag)
+    root.addHandler(handler('p', channel='*')(on_p))
+    comp = BaseComponent(channel='c')
+    for _ in range(own_use):                 # the component lives on its own for a while (its queue hands out numbers)
+        comp.fire(Event.create('q'))
+        comp.flush()
+    for _ in range(root_use):
+        root.fire(Event.create('q'))
+        root.flush()
+    fired = []
+    for k in range(pre):
+        root.fire(Event.create('p', 10 + k), '*')
+        fired.append((0, len(fired), 10 + k))
+    for k in (0, 1):
+        comp.fire(Event.create('p', k), '*', priority=prios[k])
+        fired.append((prios[k], len(fired), k))
+    comp.register(root)
+    for k in (2, 3):
+        root.fire(Event.create('p', k), '*', priority=prios[k])
+        fired.append((prios[k], len(fired), k))
+    for _ in range(4):
+        root.flush()
+    return log, [t for _p, _i, t in sorted(fired)]
 
 
 BIG_SIZES = {'quick': (129, 300, 1100), 'thorough': (64, 128, 129, 130, 255, 256, 257, 300, 1100, 5000)}
@@ -402,7 +456,7 @@ def run(tier, seed, workers):
     st = core.parallel(_work, (tier, seed), workers, nparts=workers * 4)
     if l1 != l2:
         st.selfcheck_errors.append('determinism: same program gave two different logs')
-    if st.executions - st.counters['multi_channel_programs'] - st.counters['refire_programs'] - st.counters['big_batch_programs'] != total_programs:
+    if st.executions - st.counters['multi_channel_programs'] - st.counters['refire_programs'] - st.counters['big_batch_programs'] - st.counters['adoption_programs'] != total_programs:
         st.selfcheck_errors.append('enumeration: executed %d of %d programs' % (st.executions, total_programs))
     st.states = len(st.outcomes)
     st.bounds = {'handler_sets_A': len(h_a), 'handler_sets_B': len(h_b), 'handler_sets_C': len(h_c),
@@ -416,6 +470,11 @@ def run(tier, seed, workers):
 
 
 def replay(witness):
+    if witness.get('adopt'):
+        a = witness['adopt']
+        case = (a[0], a[1], a[2], tuple(a[3]))
+        got, want = run_adopt(case)
+        return got == want, 'adoption case %r\ndispatched %r\nexpected   %r\n%s\n' % (case, got, want, 'order holds' if got == want else 'VIOLATED: order')
     if witness.get('big'):
         program = [p for p in big_batch_space('thorough') if len(p[3]) == witness['n'] and p[5] == witness['pattern']][0]
         log, maxdepth, quiescent = run_one(program)
